@@ -93,3 +93,29 @@ PROPS["C13"] = {
         "match-guard desugaring of the ShardNotFound arm (declared rewrite; equivalent because the fall-through arm returns the same error)",
     ],
 }
+
+PROPS["C03"] = {
+    "level": "other",
+    "technique": "Verus contracts on the extracted complete_compaction transformers of both backends (atomic swap: exactly the sources leave, target stays one level above the highest source, index invariant kept, unknown target => no change) and on the compactor's publish order",
+    "verus": ["c03_compaction.rs.in"],
+    "explanation": "Deductive obligations on the catalog transformers and the publish order of one compaction; row conservation of the merge itself rests on assumed arrow/parquet kernel contracts (concat_batches, sort_to_indices + take, Parquet encode/decode are value preserving). Crashes, two compactors and lease expiry are covered only through the atomic-swap contract (sources leave the catalog only inside one conditional PUT that requires the registered target) and the lease invariant of C08; interleavings are not explored.",
+    "assumptions": [
+        "arrow concat_batches / sort_to_indices / take and the Parquet writer/reader preserve the multiset of rows",
+        "conditional PUT of the catalog object is atomic (ghost store contract of prelude_s3.inc)",
+        "chunk levels stay below u32::MAX",
+        "in-memory backend: complete_compaction does not check that the target is registered — caller obligation, discharged at the compactor call site (merge_chunks registers the target before the swap)",
+        "known finding: a crash between register_chunk(target) and complete_compaction leaves target and sources both in the catalog (duplicate rows) until the group is compacted again",
+    ],
+}
+
+PROPS["C20"] = {
+    "level": "other",
+    "technique": "Verus contracts on the extracted candidate selection (object-store get_level_candidates: selected paths are exactly the chunks of the requested level, each in one group only) and on the level arithmetic of complete_compaction (target strictly above every source)",
+    "verus": ["c03_compaction.rs.in"],
+    "explanation": "Per-call obligations: no chunk is selected into two groups of one call, only chunks of the level being compacted are grouped, the merged chunk's level is strictly above every source level and no other chunk's level changes. Convergence over repeated cycles is argued from these contracts (each successful merge of >= 2 live sources removes at least one catalog entry and never lowers a level; levels are bounded by max_levels + 1) but the whole-history induction is not mechanised.",
+    "assumptions": [
+        "HashMap::into_iter().filter().map().collect() yields exactly the entries satisfying the (lifted, verified) predicate, each key once; sort_by_key is a permutation; std::mem::take returns the old vector and leaves an empty one",
+        "chunk sizes and target sizes are below 2^62 (the running size sum does not overflow)",
+        "get_l0_candidates and the in-memory candidate functions are not under contract yet",
+    ],
+}
